@@ -97,6 +97,8 @@ type connScn struct {
 	hasPoison   bool           // a batchable call that cannot be marshalled has been queued
 	inQueue     int32          // QueueRPC calls that have not returned yet
 	profile     string
+	forceExc    string // scripted scenarios: the next multi response carries a server exception for its
+	// first "action" / for the "region" of its first action
 }
 
 var discardLogger = slog.New(slog.NewTextHandler(io.Discard, nil))
@@ -289,19 +291,57 @@ func (s *connScn) buildFrame(w *wireInfo, kind string) ([]byte, string) {
 		}
 		return frameBytes(h, resp, cb), "res"
 	}
-	// multi: per region, a permutation of per-action results / exceptions, or a region exception
+	// multi: per region, a permutation of per-action results / exceptions, or a region exception.
+	// An exception of the "server is not in service" class (connErr) anywhere in a multi response —
+	// for a region or for one action — fails the connection once every call of the multi has its
+	// own result (receive / serverErrorIn), exactly like such an exception in a response header.
+	// So, like the header-level "connErr" frame kind, it is produced only by the profile in which
+	// the connection may be failed by what the server says ("fail", C03); in the other profiles
+	// ("idle", "corr", "write", "close": see the `kinds` of run) the draw is kept and the class is
+	// replaced by a retryable one.
+	serverExc := func(k string) string {
+		if k == "connErr" && s.profile != "fail" {
+			return "retryable"
+		}
+		return k
+	}
 	mr := &pb.MultiResponse{}
 	var cb []byte
 	var desc []string
 	allFail := len(w.regions) > 1 && s.rng.Intn(5) == 0 // every region fails, each with its own class
 	failKinds := []string{"retryable", "nsre", "fatal", "connErr"}
 	s.rng.Shuffle(failKinds)
+	// "fail" profile: in a third of the multi responses one action (chosen here) carries the server
+	// exception, so that this way of failing the connection is exercised about as often as the
+	// others (multi responses are a sixth of the frames fed)
+	forced := -1
+	if s.profile == "fail" && len(w.calls) > 0 && s.rng.Intn(3) == 0 {
+		forced = s.rng.Intn(len(w.calls))
+	}
+	// scripted scenarios: the server exception is the answer to the first action, or to the whole
+	// region of the first action
+	scripted := s.forceExc
+	s.forceExc = ""
+	forcedRegion := -1
+	switch scripted {
+	case "action":
+		allFail, forced = false, 0
+	case "region":
+		allFail, forced, forcedRegion = false, -1, 0
+	}
 	for ri, pos := range w.regions {
 		rar := &pb.RegionActionResult{}
-		if len(pos) > 0 && (allFail || s.rng.Intn(6) == 0) {
-			k := []string{"retryable", "nsre", "connErr", "fatal"}[s.rng.Intn(4)]
+		regionFails := len(pos) > 0 && (allFail || ri == forcedRegion || s.rng.Intn(6) == 0)
+		if scripted == "action" && len(pos) > 0 && pos[0] == 0 {
+			regionFails = false // the region of the forced action answers action by action
+		}
+		if regionFails {
+			k := serverExc([]string{"retryable", "nsre", "connErr", "fatal"}[s.rng.Intn(4)])
 			if allFail {
-				k = failKinds[ri%len(failKinds)]
+				k = serverExc(failKinds[ri%len(failKinds)])
+			}
+			if ri == forcedRegion {
+				k = "connErr"
 			}
 			cls := excClass[k]
 			rar.Exception = &pb.NameBytesPair{Name: &cls, Value: []byte("stack")}
@@ -321,7 +361,10 @@ func (s *connScn) buildFrame(w *wireInfo, kind string) ([]byte, string) {
 			roe := &pb.ResultOrException{Index: &idx}
 			k := "ok"
 			if s.rng.Intn(5) == 0 {
-				k = []string{"retryable", "nsre", "connErr", "fatal"}[s.rng.Intn(4)]
+				k = serverExc([]string{"retryable", "nsre", "connErr", "fatal"}[s.rng.Intn(4)])
+			}
+			if p == forced {
+				k = "connErr"
 			}
 			if k == "ok" {
 				row := s.calls[w.calls[p]].row
@@ -757,6 +800,127 @@ func midFrameScenario() string {
 	return res
 }
 
+// serverExcMultiScenario (C03): a multi response that is decoded and dispatched like any other, but
+// in which the regionserver says — for one action, or for a whole region — that it is not in
+// service. Every call of that multi gets what the response says about it; then the connection is
+// failed like for such an exception in a response header: every other outstanding request (a direct
+// call, a second multi that is still being written) is completed with a connection-level error,
+// the write in progress fails, a later call is refused. The events are logged in the vocabulary of
+// the model and replayed on it like the random schedules.
+//   - last=false: other requests are outstanding when the response arrives
+//   - last=true: the multi is the only outstanding request: the reader first counts it out of
+//     flight and clears the read deadline, and fails the connection when that has returned
+func serverExcMultiScenario(exc string, last bool) string {
+	s := newConnScn(NewRNG(1, fmt.Sprintf("servexcmulti-%s-%v", exc, last)), 2)
+	if s.broken != "" {
+		return "c03 run 2 broken:" + strings.ReplaceAll(s.broken, " ", "_") + " cancelled=none foreign=none"
+	}
+	s.v.closeErr = nil
+	queue := func(direct bool) *connCall {
+		c := s.newCall(direct, false)
+		atomic.AddInt32(&s.inQueue, 1)
+		go func() {
+			s.rc.QueueRPC(c.call)
+			atomic.AddInt32(&s.inQueue, -1)
+		}()
+		kind := "qb"
+		if direct {
+			kind = "qd"
+		}
+		s.log(fmt.Sprintf("%s:%d", kind, c.idx))
+		return c
+	}
+	// advance lets every parked Write unit / SetReadDeadline complete, oldest first
+	advance := func() {
+		for i := 0; i < 40 && s.broken == ""; i++ {
+			var g *gate
+			for _, p := range s.v.Pending() {
+				if p.kind == "write" || p.kind == "deadline" {
+					g = p
+					break
+				}
+			}
+			if g == nil {
+				return
+			}
+			s.releaseGate(g)
+		}
+	}
+	answer := func(c *connCall, exc string) (w *wireInfo) {
+		for _, x := range s.wires {
+			for _, ci := range x.calls {
+				if ci == c.idx && !x.answered {
+					w = x
+				}
+			}
+		}
+		var rd *gate
+		for _, p := range s.v.Pending() {
+			if p.kind == "read" {
+				rd = p
+			}
+		}
+		if w == nil || rd == nil {
+			s.broken = "script: no request / no parked Read to answer"
+			return nil
+		}
+		s.forceExc = exc
+		s.feed(rd, w, "res")
+		return w
+	}
+	var direct *connCall
+	if !last {
+		direct = queue(true) // written, armed, waiting for its answer
+		advance()
+	}
+	lead := queue(false) // a multi of one call, parked inside its Write …
+	b1 := queue(false)   // … so that these two wait in the queue and make up the next multi
+	b2 := queue(false)
+	advance() // both multis written and armed
+	if last && s.broken == "" {
+		answer(lead, "") // the lead multi is answered normally: one request left outstanding
+	}
+	var second *connCall
+	if !last {
+		second = queue(false) // a third multi: registered, parked inside its Write
+	}
+	// (in which order the two calls were taken off the queue is up to the scheduler: the server
+	// exception is the answer to the first action of the request as written)
+	hit, other := b1, b2
+	if s.broken == "" {
+		if w := answer(b1, exc); w != nil && len(w.calls) == 2 && w.calls[0] == b2.idx {
+			hit, other = b2, b1
+		}
+	}
+	advance()           // last: the clearing SetReadDeadline returns; otherwise: the third multi's Write fails
+	late := queue(true) // refused at once
+	s.drain()
+	// what the script is about, checked on the spot as well (the model replay checks the same; what
+	// the frame says about the other call of the multi is checked by log() like every answer)
+	if s.broken == "" {
+		bad := ""
+		chk := func(name string, c *connCall, want string) {
+			if c != nil && strings.Join(c.results, "+") != want {
+				bad += fmt.Sprintf("%s=%s(want_%s),", name, strings.Join(append([]string{"none"}, c.results...), "+"), want)
+			}
+		}
+		chk("multi-call", hit, "connErr")
+		chk("direct", direct, "connErr")
+		if !last {
+			chk("lead-multi", lead, "connErr")
+		}
+		chk("third-multi", second, "connErr")
+		chk("late", late, "connErr")
+		if len(other.results) != 1 {
+			bad += fmt.Sprintf("other-call-of-the-multi=%d-results,", len(other.results))
+		}
+		if bad != "" {
+			s.misdelivered = append(s.misdelivered, fmt.Sprintf("0:%x", "script-server-exception-in-multi:"+bad))
+		}
+	}
+	return s.line("c03")
+}
+
 func (s *connScn) log(act string) {
 	if !settle() {
 		s.broken = "no quiescence after " + act
@@ -786,6 +950,84 @@ func (s *connScn) log(act string) {
 		}
 		s.seenResults[i] = len(c.results)
 	}
+}
+
+// releaseGate lets a parked Write unit or SetReadDeadline complete the way the connection does when
+// nothing goes wrong with it (with an error if the connection has been closed meanwhile) and logs
+// the event.
+func (s *connScn) releaseGate(g *gate) {
+	switch g.kind {
+	case "write":
+		w, last := s.parseUnit(g)
+		who := s.gidWho[g.gid]
+		s.v.take(g)
+		res := "ok"
+		if s.v.Closed() {
+			res = "err" // a write on a closed connection fails whatever the script says
+			delete(s.gidWire, g.gid)
+		}
+		g.ch <- gateRes{n: len(g.data)}
+		if w == nil {
+			s.broken = "unparsable frame written"
+		}
+		l := 0
+		if last {
+			l = 1
+			if w != nil && res == "ok" {
+				w.lastSeen = true
+			}
+		}
+		s.log(fmt.Sprintf("w:%s:%d:%s", who, l, res))
+	case "deadline":
+		act := "arm:" + s.gidWho[g.gid]
+		if g.zero {
+			act = "clr"
+		} else if s.gidWho[g.gid] == "" {
+			act = "arm:R" // not a sender: the reader goroutine is arming the deadline
+		}
+		s.v.take(g)
+		res := "ok"
+		if s.v.Closed() {
+			res = "err"
+		}
+		g.ch <- gateRes{}
+		s.log(act + ":" + res)
+	}
+}
+
+// feed hands the parked Read (gate g) a response frame of the given kind for the request w, records
+// what the frame says about each call of that request, and logs the event.
+func (s *connScn) feed(g *gate, w *wireInfo, k string) {
+	data, desc := s.buildFrame(w, k)
+	w.answered = true
+	// what this frame says about each call of its request (a multi response with a server
+	// exception in it says so for its own calls like any other multi response; that it then fails
+	// the connection shows in the observations: done, and every other outstanding call completed
+	// with connErr — accepted by log() because the connection is failed by then, and compared with
+	// the model event by event)
+	for _, ci := range w.calls {
+		want := "any"
+		switch {
+		case desc == "res":
+			want = "ok"
+		case desc == "badhdr":
+			want = "connErr"
+		case strings.HasPrefix(desc, "exc-"):
+			want = desc[4:]
+		case strings.HasPrefix(desc, "pc-"):
+			for _, d := range strings.Split(desc[3:], "+") {
+				if k := strings.SplitN(d, ".", 2); len(k) == 2 && k[0] == fmt.Sprint(ci) {
+					want = k[1]
+				}
+			}
+		}
+		if _, dup := s.expect[ci]; !dup {
+			s.expect[ci] = want
+		}
+	}
+	s.v.take(g)
+	g.ch <- gateRes{data: data}
+	s.log(fmt.Sprintf("rd:%d:%s", w.id, desc))
 }
 
 // run performs up to nSteps randomly chosen events, then drains.
@@ -882,28 +1124,7 @@ func (s *connScn) run(nSteps, maxCalls int, profile string) {
 			g := g
 			switch g.kind {
 			case "write":
-				opts = append(opts, opt{8, func() {
-					w, last := s.parseUnit(g)
-					who := s.gidWho[g.gid]
-					s.v.take(g)
-					res := "ok"
-					if s.v.Closed() {
-						res = "err" // a write on a closed connection fails whatever the script says
-						delete(s.gidWire, g.gid)
-					}
-					g.ch <- gateRes{n: len(g.data)}
-					if w == nil {
-						s.broken = "unparsable frame written"
-					}
-					l := 0
-					if last {
-						l = 1
-						if w != nil && res == "ok" {
-							w.lastSeen = true
-						}
-					}
-					s.log(fmt.Sprintf("w:%s:%d:%s", who, l, res))
-				}})
+				opts = append(opts, opt{8, func() { s.releaseGate(g) }})
 				opts = append(opts, opt{failW, func() {
 					_, last := s.parseUnit(g)
 					who := s.gidWho[g.gid]
@@ -927,15 +1148,7 @@ func (s *connScn) run(nSteps, maxCalls int, profile string) {
 				} else if s.gidWho[g.gid] == "" {
 					act = "arm:R" // not a sender: the reader goroutine is arming the deadline
 				}
-				opts = append(opts, opt{30, func() {
-					s.v.take(g)
-					res := "ok"
-					if s.v.Closed() {
-						res = "err"
-					}
-					g.ch <- gateRes{}
-					s.log(act + ":" + res)
-				}})
+				opts = append(opts, opt{30, func() { s.releaseGate(g) }})
 				opts = append(opts, opt{failW, func() {
 					s.v.take(g)
 					g.ch <- gateRes{err: errVReset}
@@ -968,39 +1181,16 @@ func (s *connScn) run(nSteps, maxCalls int, profile string) {
 					opts = append(opts, opt{10, func() {
 						w := cands[s.rng.Intn(len(cands))]
 						kinds := []string{"res", "res", "res", "res", "retryable", "nsre", "fatal", "undec"}
+						// frames that fail the connection by what the server says — a server exception in
+						// the header ("connErr"), an undecodable header, and (inside buildFrame) a server
+						// exception within a multi response — only in the "fail" profile
 						if profile == "fail" {
 							kinds = append(kinds, "connErr", "badhdr")
 						}
 						if profile == "close" {
 							kinds = []string{"res", "res", "retryable", "nsre"}
 						}
-						k := kinds[s.rng.Intn(len(kinds))]
-						data, desc := s.buildFrame(w, k)
-						w.answered = true
-						// what this frame says about each call of its request
-						for _, ci := range w.calls {
-							want := "any"
-							switch {
-							case desc == "res":
-								want = "ok"
-							case desc == "badhdr":
-								want = "connErr"
-							case strings.HasPrefix(desc, "exc-"):
-								want = desc[4:]
-							case strings.HasPrefix(desc, "pc-"):
-								for _, d := range strings.Split(desc[3:], "+") {
-									if k := strings.SplitN(d, ".", 2); len(k) == 2 && k[0] == fmt.Sprint(ci) {
-										want = k[1]
-									}
-								}
-							}
-							if _, dup := s.expect[ci]; !dup {
-								s.expect[ci] = want
-							}
-						}
-						s.v.take(g)
-						g.ch <- gateRes{data: data}
-						s.log(fmt.Sprintf("rd:%d:%s", w.id, desc))
+						s.feed(g, w, kinds[s.rng.Intn(len(kinds))])
 					}})
 				}
 				if profile != "corr" && profile != "write" && profile != "close" {
@@ -1333,6 +1523,10 @@ func init() {
 			out.Line("%s", slowCloseScenario())
 			out.Line("%s", blockedWriteCloseScenario())
 			out.Line("%s", dialCloseScenario("close"))
+			for _, exc := range []string{"action", "region"} {
+				out.Line("%s", serverExcMultiScenario(exc, false))
+				out.Line("%s", serverExcMultiScenario(exc, true))
+			}
 			for _, l := range resultChanCases() {
 				out.Line("%s", l)
 			}
